@@ -19,6 +19,7 @@ import (
 	"github.com/FollowTheProcess/spok/iostream"
 	"github.com/FollowTheProcess/spok/logger"
 	"github.com/FollowTheProcess/spok/shell"
+	"github.com/FollowTheProcess/spok/simhook"
 	"github.com/FollowTheProcess/spok/task"
 	"github.com/bmatcuk/doublestar/v4"
 	"github.com/lithammer/fuzzysearch/fuzzy"
@@ -214,6 +215,7 @@ func (s *SpokFile) run(stream iostream.IOStream, runner shell.Runner, force bool
 	updateCache := true
 
 	for _, taskToRun := range runOrder {
+		simhook.Point("run.task.before", taskToRun.Name)
 		// Gather up all the files to be hashed into a single slice
 		var toHash []string
 
@@ -284,15 +286,18 @@ func (s *SpokFile) run(stream iostream.IOStream, runner shell.Runner, force bool
 
 		// Gather up all the task results
 		results = append(results, task.Result{CommandResults: result, Task: taskToRun.Name, Skipped: skipped})
+		simhook.Point("run.task.after", taskToRun.Name)
 	}
 
 	// Only update the cache if force was not set, the task declares file dependencies
 	// and the task run was successful
 	if !force && updateCache && results.Ok() {
 		s.logger.Debug("Updating cached state")
+		simhook.Point("run.dump.before", "")
 		if err := cachedState.Dump(cachePath); err != nil {
 			return nil, err
 		}
+		simhook.Point("run.dump.after", "")
 	}
 
 	return results, nil
@@ -320,6 +325,7 @@ func (s *SpokFile) findClosestMatch(task string) string {
 // typical usage will make start = $CWD and stop = $HOME.
 func Find(logger logger.Logger, start, stop string) (string, error) {
 	for {
+		simhook.Point("find.readdir", start)
 		logger.Debug("Looking in %s for spokfile", start)
 		entries, err := os.ReadDir(start)
 		if err != nil {
